@@ -2,43 +2,34 @@
 
     Model and monitor as in Props/C01.v (Exec/ExecGen.v REGENERATED from /repo on
     every run; Exec/ExecTrace.v evaluated, inside Coq, on the IMPLEMENTATION's
-    trace by harness/props/c04.py).  Ledger: live (node, job) pairs; succeeded nodes.
+    trace by harness/props/c04.py).  Ledger: live (node, job) pairs; succeeded
+    nodes; nodes that ended unsuccessfully; the rows after the previous poll.
       code 4   a successful submission for a node that has a live job;
       code 41  a successful submission for a node that has succeeded;
       code 40  check_jobs queried a set of job ids other than the live set
                (each tracked step = its latest job, nothing else);
       code 42  FINISHED / FAILURE / CANCELLED returned while a job is live (orphan);
+      code 43  any submit call (main or restart, whatever its outcome) for a node
+               whose row was FINISHED / DRYRUN / FAILED / CANCELLED after the
+               previous poll, or that ended unsuccessfully (own FAILED / UNKNOWN /
+               CANCELLED report, TIMEDOUT without a successful restart in that
+               poll, exhausted submission attempts);
       code 44  a row that was FINISHED (DRYRUN) after the previous poll is not
                FINISHED (DRYRUN) now; a row that was FAILED or CANCELLED is now
                something other than FAILED / CANCELLED;
       code 46  a node that succeeded whose row is not FINISHED;
-      code 47  a row FINISHED for a node that has not succeeded;
-      code 43  any submit call for a node whose row was FINISHED / DRYRUN / FAILED
-               / CANCELLED after the previous poll, or that ended unsuccessfully
-               (own FAILED / UNKNOWN / CANCELLED report, TIMEDOUT without a
-               successful restart, exhausted submission attempts).
-    Hypotheses as in C01.
-
-    PARTIAL: every code of the family except 43 is proved silent below.
-    Full statement, NOT proved here:
-      forall c g ps, wf_graph g = true -> valid_run c g (init g) ps = true ->
-        prop_ok 4 c g ps (run c g (init g) ps) = true.
-    Missing: code 43 (needs the coupling extended to the ledger's [dead], [tdel],
-    [oksub], [nsub] fields).  Its successful-submission part for succeeded nodes
-    is code 41 (proved); the disjointness of in-progress / completed / failed /
-    cancelled at every poll boundary is C04_partition (proved).  Code 43 stays
-    checked at run time on the implementation's trace AND on the model's own
-    trace for every generated history (Exec/ExecCases.v [both_ok]). *)
+      code 47  a row FINISHED for a node that has not succeeded.
+    [prop_ok 4] = none of them occurs.  Hypotheses as in C01. *)
 From MWF Require Import Exec.ExecBase Exec.ExecGen Exec.ExecRun Exec.ExecTrace
-     Exec.ExecLedger Exec.ExecLedger2 Exec.ExecLedger3 Exec.ExecLedger6 Exec.ExecLedgerEx.
+     Exec.ExecLedger Exec.ExecLedger2 Exec.ExecLedger3 Exec.ExecLedger6 Exec.ExecLedger8 Exec.ExecLedgerEx.
 
-Theorem C04_partial : forall c g ps,
+Theorem C04 : forall c g ps,
   wf_graph g = true -> valid_run c g (init g) ps = true ->
-  forall k, In k [4; 41; 42; 44; 46; 47; 40] -> ~ In k (viol_of c g ps (run c g (init g) ps)).
-Proof. exact C04_codes. Qed.
-Print Assumptions C04_partial.
+  prop_ok 4 c g ps (run c g (init g) ps) = true.
+Proof. exact C04_holds. Qed.
+Print Assumptions C04.
 
-(** at most one live job per step, at every event *)
+(** at most one live job per step, at every event; the queried set is the live set *)
 Theorem C04_one_live : forall c g ps,
   wf_graph g = true -> valid_run c g (init g) ps = true ->
   ~ In 4 (viol_of c g ps (run c g (init g) ps)) /\ ~ In 40 (viol_of c g ps (run c g (init g) ps)).
@@ -48,15 +39,15 @@ Proof.
 Qed.
 Print Assumptions C04_one_live.
 
-(** resolved stays resolved: no job for a succeeded step; resolved rows keep
-    their kind; FINISHED rows = succeeded steps *)
-Theorem C04_stable_partial : forall c g ps,
+(** resolved stays resolved: no submit call for a step that succeeded, failed or
+    was cancelled; resolved rows keep their kind; FINISHED rows = succeeded steps *)
+Theorem C04_stable : forall c g ps,
   wf_graph g = true -> valid_run c g (init g) ps = true ->
-  forall k, In k [41; 44; 46; 47] -> ~ In k (viol_of c g ps (run c g (init g) ps)).
+  forall k, In k [41; 43; 44; 46; 47] -> ~ In k (viol_of c g ps (run c g (init g) ps)).
 Proof.
-  exact (fun c g ps Hw V k Hk => C04_codes c g ps Hw V k ltac:(cbn in *; intuition (subst; auto 20))).
+  exact (fun c g ps Hw V k Hk => code_silent_Y c g ps k Hw V ltac:(cbn in *; intuition (subst; auto 30))).
 Qed.
-Print Assumptions C04_stable_partial.
+Print Assumptions C04_stable.
 
 (** no live job when a final study status is returned *)
 Theorem C04_no_orphans : forall c g ps,
